@@ -114,11 +114,17 @@ theorem scanNumber_length : ∀ (l : List Char) ds rest,
           have := ih ds' rest' heq
           simp [← h.2]; omega
 
-/-- `_to_int(p)` -/
+def isAsciiDigit (c : Char) : Bool := '0' ≤ c && c ≤ '9'
+
+/-- `_to_int(p)`: since the `fix:` commit the text must satisfy
+`p.isascii() and p.isdigit()` (non-empty, ASCII digits only) before `int(p)`
+is consulted (which still enforces the 4300-digit limit). -/
 def toInt (p : List Char) : Except Err Int :=
-  match pyInt p with
-  | some v => .ok v
-  | none => .error .valueError
+  if p.isEmpty || !(p.all isAsciiDigit) then .error .valueError
+  else
+    match pyInt p with
+    | some v => .ok v
+    | none => .error .valueError
 
 def gateLetter (c : Char) : Letter := (Letter.ofChar? c).getD .I
 
